@@ -177,10 +177,10 @@ func TestNumctInt(t *testing.T) {
 				effCap = defCap
 			}
 			if (op == "Add" || op == "AddCap" || op == "Sub" || op == "SubCap") && intAddDirty(zOld.v, zOld.ann, l.ann, r.ann, effCap) {
-				vlib.Excluded(fIntAddDirty)
-				extra += " dirty-output(excluded)"
-				nt = false
-			} else if capArg >= 0 && capArg < need {
+				// input class of finding C17-int-add-dirty-output (fixed by 1848c29): asserted normally
+				extra += " dirty-output"
+			}
+			if capArg >= 0 && capArg < need {
 				// an explicit capacity below the operands / the result: the doc comments define no
 				// value for signed integers in that case; recorded, not asserted.
 				extra += " cap-below-need(recorded)"
@@ -261,12 +261,9 @@ func TestNumctInt(t *testing.T) {
 			case "Double":
 				out.Double(x)
 				if intAddDirty(junk.v, junk.ann, l.ann, l.ann, l.ann+1) {
-					vlib.Excluded(fIntAddDirty)
-					extra = "dirty-output(excluded)"
-					nt = false
-				} else {
-					wantInt(t, what, out, new(big.Int).Lsh(l.v, 1), l.ann+1)
+					extra = "dirty-output"
 				}
+				wantInt(t, what, out, new(big.Int).Lsh(l.v, 1), l.ann+1)
 			case "Square":
 				out.Square(x)
 				wantInt(t, what, out, new(big.Int).Mul(l.v, l.v), 2*l.ann)
@@ -478,7 +475,9 @@ func TestNumctInt(t *testing.T) {
 			default:
 				d = genIntOp(t, "den", mid, true)
 			}
-			if (op == "EuclideanDivVarTime" || op == "DivVarTime") && divVarTimePanics(n.ann, d.v) {
+			if (op == "EuclideanDivVarTime" || op == "DivVarTime") && (divVarTimePanics(n.ann, d.v) || d.v.Sign() != 0 && n.ann-d.v.BitLen()+2 == 0) {
+				// (for the signed variants a documented quotient length of exactly 0 bits cannot hold the
+				// quotient -1 / +1 of a negative numerator below the denominator: folded into the same finding)
 				vlib.Excluded(fDivVarPanic)
 				vlib.Case(test, vlib.Desc("numct.Int", op, "excluded"), false, "op="+op, "note=excluded:"+fDivVarPanic)
 				return
@@ -537,7 +536,7 @@ func TestNumctInt(t *testing.T) {
 			if d.v.Sign() != 0 {
 				constTime := op == "EuclideanDiv" || op == "Div"
 				qAnn := -1
-				if fresh && constTime {
+				if fresh && constTime && n.ann > 0 {
 					qAnn = n.ann
 				}
 				if euclid {
@@ -548,7 +547,7 @@ func TestNumctInt(t *testing.T) {
 						if !eq(rBig, wr) {
 							t.Fatalf("%s: remainder %s, want %s", what, rBig, wr)
 						}
-						if fresh && constTime && rAnn != d.ann {
+						if fresh && constTime && n.ann > 0 && rAnn != d.ann {
 							t.Fatalf("%s: remainder announces %d bits, documented %d", what, rAnn, d.ann)
 						}
 					}
